@@ -51,7 +51,9 @@ acct_s = sized(string.ascii_letters + string.digits + "-_", 20, first=string.asc
 text_s = st.text(TEXT, min_size=0, max_size=60) | st.text(TEXT, min_size=200, max_size=380)
 MODES = ["+", "+x", "+!", "+x!", "+!x", "-!", "-x", "+x-x", "+!-!", "-!+!", "+x+!", "-x!", "+", "+!",
          # characters other than + - x ! are skipped by the documented mode syntax
-         "+xw!", "+a", "+ix", "-w+!", "+x!z", "+!", "+x!"]
+         "+xw!", "+a", "+ix", "-w+!", "+x!z", "+!", "+x!",
+         # a flag cleared and set again (or the other way round) inside one prefix: the last word counts
+         "-x+x", "-x+x!", "-!+!x", "+x-x+x", "-!-x+!"]
 
 
 @st.composite
@@ -71,7 +73,11 @@ def password_s(draw, weights):
     if draw(st.integers(1, weights[0] + weights[1])) <= weights[0]:
         m = draw(st.sampled_from(weights[2] if len(weights) > 2 else MODES))
         sp = draw(st.sampled_from([" ", " ", " ", "  "]))
-        return "%s%s%s %s" % (m, sp, draw(acct_s), draw(st.text(TEXT.replace(":", ""), min_size=1, max_size=12)))
+        pw = draw(st.text(TEXT.replace(":", ""), min_size=1, max_size=12))
+        if draw(st.integers(0, 24)) == 0:
+            pw = draw(st.sampled_from(["p", "Zq", "pw-"])) * draw(st.sampled_from([150, 230, 440]))      # near the longest a 512-byte line can carry
+            pw = pw[:470]
+        return "%s%s%s %s" % (m, sp, draw(acct_s), pw)
     return draw(st.sampled_from(["plain", "+x onlyone", "x a b", " +x a b", "+x", "+!", "-", "secret word", "+xaccount pass",
                                  # a mode prefix asking for +! / -! but no '<account> <password>' pair: not a password at all
                                  "+! onlyone", "+x! hunter2", "-! one", "+!   lonely", "+x!", "+!x "]))
@@ -139,7 +145,7 @@ def conf_s(draw, pid, tier):
     mods = draw(st.sampled_from([["iauth_class", "iauth_xquery"]] * 7 + [["iauth_xquery"]] * 2 + [["iauth"]]))
     nsv = draw(st.integers(0, 4))
     names = draw(st.permutations(SVC_POOL))[:nsv]
-    if pid in ("C02", "C03", "C05", "C06", "default") and draw(st.integers(0, 13)) == 0:
+    if pid in ("C02", "C03", "C05", "C06", "C09", "default") and draw(st.integers(0, 13)) == 0:
         # large service tables: the per-client bookkeeping is one bit per table slot in 32-bit masks, so the
         # daemon supports 32 services (proto.MAX_SERVICES) and refuses the rest with an error
         nsv = draw(st.sampled_from([6, 9, 17, 31, 32, 32, 33, 34, 40]))
@@ -607,6 +613,11 @@ def timer_s(draw, pid, tier):
     kinds = [k for k in kinds if k != "!"]
     rk = REPLY_KINDS["default"]
     ev = []
+    k0 = draw(st.integers(0, 5))
+    if k0 == 0:
+        # the operator has just raised the timeout (the new text extends the old one): clients announced from now on
+        # must be given the long timeout, so the wait below does not expire their timers
+        ev.append(["reconf", {"timeout": draw(st.sampled_from([10, 15, "1m", 100]))}])
     ids = draw(st.lists(st.integers(1, 4), min_size=2, max_size=5))      # small pool: ids recur, i.e. get re-announced
     for cid in ids:
         sc = [["C", cid, draw(st.sampled_from(IPS)), draw(st.integers(1, 65535))]]
@@ -624,6 +635,9 @@ def timer_s(draw, pid, tier):
             if mode == "complete":
                 sc.extend(completion(draw, cid, conf, sc, rk, (7, 2)))
         ev.extend(sc)
+    if k0 == 1:
+        # ... or switches the timeout off while requests announced under it are pending: their timers still run
+        ev.append(["reconf", {"timeout": 0}])
     if draw(st.booleans()):
         # nothing is sent during or right after the wait (no barrier): the next thing the server says is that it
         # withdraws or has registered some of the clients whose timers have just expired
